@@ -178,13 +178,19 @@ impl<'a> Gen<'a> {
     /// the planner's clamp produces messages that exactly fill `max_msg_len`).
     pub fn len(&mut self) -> usize {
         let s = self.scale as u32;
-        match self.weighted(&[3, 3, 2, 2, 3, 3]) {
+        // when the scale allows it, lengths right at the maximum of a u8 / u16 length or offset
+        // type are a choice of their own
+        let b8 = if self.scale >= 255 { 2 } else { 0 };
+        let b16 = if self.scale >= 65535 { 3 } else { 0 };
+        match self.weighted(&[3, 3, 2, 2, 3, 3, b8, b16]) {
             0 => 0,
             1 => 1.min(self.scale),
             2 => 2.min(self.scale),
             3 => 3.min(self.scale),
             4 => self.scale,
-            _ => self.d.below(self.st, s + 1) as usize,
+            5 => self.d.below(self.st, s + 1) as usize,
+            6 => 248 + self.d.below(self.st, 10) as usize,
+            _ => 65526 + self.d.below(self.st, 12) as usize,
         }
     }
     /// Shorter length for nested containers.
